@@ -369,7 +369,7 @@ def build(cls, enc, secs, segs, rng=None, hdr=None, tables_first=False, addr_fro
                 pos = (pos + al - 1) // al * al
             s["offset"] = pos if s["type"] == SHT_NOBITS else 0
         if addr_from_offset is not None and (s["flags"] & SHF_ALLOC):
-            s["addr"] = addr_from_offset + s["offset"]
+            s["addr"] = addr_from_offset + s["offset"] + s.get("addr_extra", 0)
     if tables_first:
         shoff = shoff_first
         total = pos
@@ -486,8 +486,13 @@ def rich_image(rng, cls, enc, nsym=None, tables_first=False, simple_segments=Fal
     ptr = 4 if cls == "32" else 8
     S = lambda **k: dict(dict(flags=0, addr=0, size=0, link=0, info=0, addralign=1, entsize=0), **k)
     # allocated sections first (their addresses follow their file offsets: addr = 0x10000 + offset), then the rest
+    # sometimes more than one no-bits section at the end of the last loadable group (.bss, .heap, .stack of an
+    # embedded image): they share a file offset and differ only in their addresses
+    more_nobits = rng.random() < 0.5
     order = [".text", ".dynstr", ".dynsym", ".hash", ".gnu.hash", ".dynamic", ".note.test", ".init_array", ".gnu.version",
-             ".gnu.version_r", ".gnu.version_d", ".bss", ".symtab", ".rel.text", ".rela.text", ".modinfo"]
+             ".gnu.version_r", ".gnu.version_d", ".bss"] + ([".heap", ".stack"] if more_nobits else []) + \
+            [".symtab", ".rel.text", ".rela.text", ".modinfo"]
+    n_alloc = 12 + (2 if more_nobits else 0)
     idx = {n: i + 1 for i, n in enumerate(order)}
     defs = {
         ".text": S(type=SHT_PROGBITS, flags=A | 4, data=bytes(rng.getrandbits(8) for _ in range(rng.randint(1, 64))), addralign=16),
@@ -501,7 +506,9 @@ def rich_image(rng, cls, enc, nsym=None, tables_first=False, simple_segments=Fal
         ".gnu.version": S(type=0x6fffffff, flags=A, data=versym, link=idx[".dynsym"], addralign=2, entsize=2),
         ".gnu.version_r": S(type=0x6ffffffe, flags=A, data=verneed, link=idx[".dynstr"], info=1, addralign=4),
         ".gnu.version_d": S(type=0x6ffffffd, flags=A, data=verdef, link=idx[".dynstr"], info=1, addralign=4),
-        ".bss": S(type=SHT_NOBITS, flags=A | 1, data=None, size=rng.choice([0, 16, 4096]), addralign=16),
+        ".bss": S(type=SHT_NOBITS, flags=A | 1, data=None, size=rng.choice([0, 16, 4096]) if not more_nobits else 16, addralign=16),
+        ".heap": S(type=SHT_NOBITS, flags=A | 1, data=None, size=0x40, addralign=16, addr_extra=0x100),
+        ".stack": S(type=SHT_NOBITS, flags=A | 1, data=None, size=0x80, addralign=16, addr_extra=0x400),
         ".symtab": S(type=SHT_SYMTAB, data=symtab, link=idx[".dynstr"], info=1, addralign=ptr, entsize=es),
         ".rel.text": S(type=SHT_REL, data=rel, link=idx[".symtab"], info=1, addralign=ptr, entsize=2 * ptr),
         ".rela.text": S(type=SHT_RELA, data=rela, link=idx[".dynsym"], info=1, addralign=ptr, entsize=3 * ptr),
@@ -512,7 +519,7 @@ def rich_image(rng, cls, enc, nsym=None, tables_first=False, simple_segments=Fal
         d = defs[n]; d["sname"] = n.encode(); secs.append(d)
     # program headers: 1-3 loadable segments over contiguous groups of the allocated sections, nested segments
     # (RELRO/NOTE/DYNAMIC-like) over sub-ranges that often start at a group's first section, in any table order
-    alloc_idx = [idx[n] for n in order[:12]]
+    alloc_idx = [idx[n] for n in order[:n_alloc]]
     if simple_segments:
         groups = [alloc_idx[:1], alloc_idx[1:]]
     else:
